@@ -90,5 +90,32 @@ func (s *Struct) validate() error {
 			return fmt.Errorf("%v: %w", s.Def.Name, err)
 		}
 	}
+	if s.contains(s, nil) {
+		return fmt.Errorf("%v: struct contains itself", s.Def.Name)
+	}
 	return nil
+}
+
+// contains returns true if the struct contains the target struct, directly or through other structs.
+func (s *Struct) contains(target *Struct, seen map[*Struct]struct{}) bool {
+	if seen == nil {
+		seen = make(map[*Struct]struct{})
+	}
+	if _, ok := seen[s]; ok {
+		return false
+	}
+	seen[s] = struct{}{}
+
+	for _, field := range s.Fields.Values() {
+		t := field.Type
+		if t.Kind != KindStruct || t.Ref == nil || t.Ref.Struct == nil {
+			continue
+		}
+
+		next := t.Ref.Struct
+		if next == target || next.contains(target, seen) {
+			return true
+		}
+	}
+	return false
 }
